@@ -62,6 +62,7 @@ type Report struct {
 	Funcs          map[string]bool
 	Truncated      bool
 	MaxTraceLen    int
+	MapRanges      map[string]bool
 	ViolationCount int
 	perLabel       map[string]int
 }
@@ -220,6 +221,12 @@ func (w *World) Explore(name string, opt Options) (*Report, error) {
 			}
 			for f := range p.FuncsSeen {
 				rep.Funcs[f] = true
+			}
+			if rep.MapRanges == nil {
+				rep.MapRanges = map[string]bool{}
+			}
+			for f := range p.MapRanges {
+				rep.MapRanges[f] = true
 			}
 			rep.Decisions += p.NDecisions
 			rep.SolverCalls += p.NSolver
